@@ -1,6 +1,7 @@
 package props
 
 import (
+	"bytes"
 	"fmt"
 	"strconv"
 	"strings"
@@ -182,6 +183,18 @@ func genCSVCase(t *rapid.T) csvCase {
 			c.conf.RowCountHint = rapid.SampledFrom([]int{1, 10, 3000}).Draw(t, "hint")
 		}
 	}
+	// document size focus: a last row whose first cell is padded (below, once the line ends are known) so that the
+	// whole document is exactly as long as the reader's buffer or one of its doublings, +-1
+	sizeFocus := !big && rapid.IntRange(0, 7).Draw(t, "sizefocus") == 0
+	if sizeFocus {
+		row := make([]string, ncols)
+		row[0] = "p"
+		for i := 1; i < ncols; i++ {
+			row[i] = genCell(t, profiles[i])
+		}
+		d.Rows = append(d.Rows, row)
+		d.Quote = append(d.Quote, make([]bool, ncols))
+	}
 	// the two representations the format cannot tell apart (see DESIGN.md): a single
 	// column whose cell/name is empty and unquoted is a blank line
 	if ncols == 1 {
@@ -223,6 +236,19 @@ func genCSVCase(t *rapid.T) csvCase {
 		}
 	}
 	d.FinalBreak = rapid.Bool().Draw(t, "finalbreak")
+	if sizeFocus {
+		cur := len(d.Bytes())
+		var targets []int
+		for _, x := range []int{1023, 1024, 1025, 2048, 2049, 2050, 4098, 4099, 4100} {
+			if x >= cur {
+				targets = append(targets, x)
+			}
+		}
+		if len(targets) > 0 {
+			target := rapid.SampledFrom(targets).Draw(t, "doclen")
+			d.Rows[len(d.Rows)-1][0] = strings.Repeat("p", 1+target-cur)
+		}
+	}
 
 	// declared types
 	uniqueLegal := hdrKind == "plain" || hdrKind == "headers-option"
@@ -265,7 +291,11 @@ func genCSVCase(t *rapid.T) csvCase {
 	}
 
 	// read schedule
-	switch rapid.IntRange(0, 6).Draw(t, "sched") {
+	sched := rapid.IntRange(0, 6).Draw(t, "sched")
+	if sizeFocus && rapid.Bool().Draw(t, "sizefocusoneread") {
+		sched = rapid.SampledFrom([]int{0, 5}).Draw(t, "sizefocussched")
+	}
+	switch sched {
 	case 0:
 		c.schedTag = "one-read"
 	case 1, 2:
@@ -409,7 +439,12 @@ func propC12(t *rapid.T) {
 		rd := hx.NewChunkReader(data, c.schedule, c.eofWith)
 		rd.NoCycle = c.noCycle
 		var qf qframe.QFrame
-		if perr := hx.Safely(func() { qf = qframe.ReadCSV(rd, c.confFns()...) }); perr != nil {
+		fns := c.confFns()
+		if rapid.IntRange(0, 3).Draw(t, "reuseconfig") == 0 {
+			// the same configuration (the caller's maps and option values) served an earlier read of the same document
+			_ = hx.Safely(func() { _ = qframe.ReadCSV(bytes.NewReader(data), fns...) })
+		}
+		if perr := hx.Safely(func() { qf = qframe.ReadCSV(rd, fns...) }); perr != nil {
 			t.Fatalf("ReadCSV panicked: %v\n%s", perr, desc())
 		}
 		if msg := checkCSVRead(qf, exp, len(c.doc.Rows)); msg != "" {
